@@ -343,6 +343,10 @@ def run(model, tier="quick"):
     n = argrole_rule(model, res)
     res.floor("registry_call_sites", n, 8)
     res.floor("formula_targets", sum(1 for o in res.obligations if o.rule == "R-FORMULA"), 9)
+    from ..rules.fresh import fresh_rule
+    if "R-FRESH" not in res.rules:
+        res.rules.append("R-FRESH")
+    fresh_rule(model, res, scope=('demeter/result/',))
     res.assumptions = ["pandas/numpy semantics of shift, pct_change, fillna, replace, dropna, std, prod, cov are trusted",
                        "Timedelta.value is nanoseconds (value/1e9/86400 = days)"]
     res.not_decided = ["numerical agreement with a direct recomputation on concrete series (floating point)",
